@@ -36,7 +36,7 @@ var c02Firsts = map[string]gopacket.Decoder{
 	"icmp4": layers.LayerTypeICMPv4, "gre": layers.LayerTypeGRE, "sctp": layers.LayerTypeSCTP,
 }
 
-var c02Readers = []string{"layers", "string", "dump", "verify", "flows", "gostring", "layerstring"}
+var c02Readers = []string{"layers", "string", "dump", "verify", "flows", "gostring", "layerstring", "lookups"}
 
 func c02Built(rng *rand.Rand) []byte {
 	// a checksummed stack so that VerifyChecksums runs its full path
@@ -259,6 +259,32 @@ func c02Read(p gopacket.Packet, kind string) string {
 			}
 		}
 		return strings.Join(out, ";")
+	case "lookups":
+		// Layer(t) for every layer type id, absent ones included, in descending then ascending order:
+		// the answer to one lookup must not depend on the lookups made before
+		var out []string
+		first := map[gopacket.LayerType]gopacket.Layer{}
+		for _, l := range p.Layers() {
+			if _, ok := first[l.LayerType()]; !ok {
+				first[l.LayerType()] = l
+			}
+		}
+		check := func(t gopacket.LayerType) {
+			got := p.Layer(t)
+			want := first[t]
+			if got != want {
+				out = append(out, fmt.Sprintf("MISMATCH Layer(%d)", int(t)))
+			} else if got != nil {
+				out = append(out, strconv.Itoa(int(t)))
+			}
+		}
+		for t := 300; t >= 0; t-- {
+			check(gopacket.LayerType(t))
+		}
+		for t := 0; t <= 300; t++ {
+			check(gopacket.LayerType(t))
+		}
+		return strings.Join(out, ",")
 	case "layerstring":
 		var out []string
 		for _, l := range p.Layers() {
@@ -380,6 +406,9 @@ func (c02) Run(c Case) Result {
 				} else {
 					other = pan
 				}
+			}
+			if strings.Contains(ans, "MISMATCH") {
+				res.Oracle = append(res.Oracle, fmt.Sprintf("readers-same-answers\t%s: Layer(t) disagrees with the first layer of that type in Layers() (%s)", op, ans[strings.Index(ans, "MISMATCH"):][:24]))
 			}
 			same := 1
 			if prev, ok := in.ans[args[1]]; ok && !fault && other == nil {
